@@ -75,8 +75,7 @@ def gen_frame(rng, areas):
         geoms = [LineString([(-20, 0.5), (20, 1.5)])]
     idx_mode = rng.choice(["default", "ints", "strings", "nonmono", "dup"])
     m = len(geoms)
-    index = {"default": list(range(m)), "ints": [10 * i + 7 for i in range(m)], "strings": [f"r{i}" for i in range(m)],
-             "nonmono": list(range(m))[::-1], "dup": [i // 2 for i in range(m)]}[idx_mode]
+    index = index_for(idx_mode, m)
     data = {"uid": [f"u{i}" for i in range(m)], "val": [i * 1.5 for i in range(m)]}
     if rng.random() < 0.5:
         data["length"] = [99.0] * m  # a column named like one the package itself uses
@@ -84,11 +83,29 @@ def gen_frame(rng, areas):
     return gdf, idx_mode
 
 
+def xy(g):
+    return [tuple(c[:2]) for c in g.coords]
+
+
+def index_for(mode, m):
+    return {"default": list(range(m)), "ints": [10 * i + 7 for i in range(m)], "strings": [f"r{i}" for i in range(m)],
+            "nonmono": list(range(m))[::-1], "dup": [i // 2 for i in range(m)], "shuffled": [(i * 7 + 3) % m for i in range(m)] if m % 7 else list(range(m))[::-1]}[mode]
+
+
+def add_z(gdf, salt=0):
+    """the same frame with a Z value on every vertex (traces digitised with elevation)"""
+    from shapely.geometry import LineString
+
+    out = gdf.copy()
+    out["geometry"] = [LineString([(x, y, 10.0 + ((i * 31 + j * 7 + salt) % 13) / 4) for j, (x, y) in enumerate(xy(g))]) for i, g in enumerate(gdf.geometry.values)]
+    return out
+
+
 def length_of(pts):
     return sum(math.hypot(float(b[0] - a[0]), float(b[1] - a[1])) for a, b in zip(pts[:-1], pts[1:]))
 
 
-def check_case(ctx, gdf, areas, resp, res, stream, meta):
+def check_case(ctx, gdf, areas, resp, res, stream, meta, route="function"):
     import geopandas as gpd
     from shapely.geometry import LineString
 
@@ -97,16 +114,28 @@ def check_case(ctx, gdf, areas, resp, res, stream, meta):
     r = parse_resp(resp)
     per_trace = [parse_lines(x) for x in r["pieces"].split("#")] if "pieces" in r else None
     touch = [x == "1" for x in r.get("touch", "").split(",")] if r.get("touch") else []
-    case = {"stream": stream, "traces": lines([list(g.coords) for g in gdf.geometry.values]), "areas": area_rows(areas), "meta": meta,
-            "index": [str(i) for i in gdf.index], "uids": list(gdf["uid"])}
+    case = {"stream": stream, "traces": lines([xy(g) for g in gdf.geometry.values]), "areas": area_rows(areas), "meta": meta,
+            "index": [str(i) for i in gdf.index], "uids": list(gdf["uid"]), "route": route, "z": bool(any(g.has_z for g in gdf.geometry.values))}
     if any(touch):
         case["finding_key"] = F20_KEY
     before = gdf.copy(deep=True)
     area_gdf = gpd.GeoDataFrame(geometry=list(areas))
     area_before = area_gdf.copy(deep=True)
+    nothing_inside = not any(length_of(pc) > MINIMUM_LINE_LENGTH for pcs in per_trace for pc in pcs)
     try:
-        out = crop_to_target_areas(gdf, area_gdf, keep_column_data=True)
+        if route == "network":
+            # the documented way to crop: Network(truncate_traces=True) removes Z-coordinates, crops with the column data and
+            # renumbers the rows
+            from fractopo import Network
+
+            out = Network(trace_gdf=gdf, area_gdf=area_gdf, name="n", determine_branches_nodes=False, truncate_traces=True,
+                          circular_target_area=False, snap_threshold=0.001).trace_gdf
+        else:
+            out = crop_to_target_areas(gdf, area_gdf, keep_column_data=True)
     except Exception as e:
+        if route == "network" and nothing_inside and isinstance(e, ValueError) and "Empty trace" in str(e):
+            res.distribution["network_refuses_empty_crop"] = res.distribution.get("network_refuses_empty_crop", 0) + 1
+            return
         res.disagreements.append(Disagreement(stream, case, "pieces", f"{type(e).__name__}: {e}", True, "crop raised"))
         return
     problems = []
@@ -118,6 +147,7 @@ def check_case(ctx, gdf, areas, resp, res, stream, meta):
         problems.append("the caller's area frame was modified")
     if not all(isinstance(g, LineString) for g in out.geometry.values):
         problems.append("multi-part or non-line geometry in the output")
+        out = out.loc[[isinstance(g, LineString) for g in out.geometry.values]]
     # per source row: the output rows with its attributes must lie on its exact clip pieces and have the same
     # total length (GEOS may split a piece further, e.g. where a trace runs onto the boundary; the property speaks
     # about coverage, attributes and total length, not about the segmentation)
@@ -134,7 +164,7 @@ def check_case(ctx, gdf, areas, resp, res, stream, meta):
 
     got_by_uid = {}
     for u, v, g in zip(out["uid"], out["val"], out.geometry.values):
-        got_by_uid.setdefault((u, v), []).append(list(g.coords))
+        got_by_uid.setdefault((u, v), []).append(xy(g))
     expected_n = 0
     for uid, val, pcs in zip(gdf["uid"], gdf["val"], per_trace):
         pcs = [pc for pc in pcs if length_of(pc) > MINIMUM_LINE_LENGTH]
@@ -157,7 +187,7 @@ def check_case(ctx, gdf, areas, resp, res, stream, meta):
     if any(k > 1 for k in npieces):
         res.nontrivial += 1
     if len(res.samples) < 2:
-        res.samples.append({"case": {k: case[k] for k in ("traces", "areas", "index")}, "pieces_per_row": npieces})
+        res.samples.append({"case": {k: case[k] for k in ("traces", "areas", "index", "route", "z")}, "pieces_per_row": npieces})
     if problems:
         res.disagreements.append(Disagreement(stream, case, {"pieces_per_row": npieces, "expected_rows": len(expected)}, {"rows": len(got)}, True, "; ".join(problems)))
 
@@ -178,6 +208,37 @@ def s07_crop(ctx):
     for (gdf, areas, meta), resp in zip(cases, resps):
         res.evaluations += 1
         check_case(ctx, gdf, areas, resp, res, "S07-crop", meta)
+    return res
+
+
+def s07_network(ctx):
+    """the same judge, cropping the documented way: Network(truncate_traces=True) -- z-coordinate removal, the defensive copies, the crop with the
+    column data, the renumbering -- on frames with elevation values and every index kind, twice on the same caller's frame with different areas"""
+    import_fractopo()
+    res = StreamResult("S07-network", rule="the frames and areas of S07-crop (index labels default / ints / strings / reversed / shuffled; no duplicated labels), half of them "
+                       "with Z values on every vertex, cropped by Network(truncate_traces=True).trace_gdf, twice on the SAME caller's frame with two different "
+                       "area sets; the exact clip decides coverage, length, attribute carry-over; the caller's frames must stay as they were; "
+                       "non-trivial = some row is cut into several pieces")
+    rng = rng_for(ctx.seed, "S07n")
+    cases = []
+    for _ in range(budget(ctx.tier, 60, 1500)):
+        kind, areas = gen_areas(rng)
+        gdf, idx_mode = gen_frame(rng, areas)
+        if idx_mode == "dup":
+            idx_mode = "shuffled"
+            gdf.index = index_for("shuffled", len(gdf))
+        z = rng.random() < 0.5
+        if z:
+            gdf = add_z(gdf, rng.randint(0, 12))
+        kind2, areas2 = gen_areas(rng)
+        cases.append((gdf, areas, {"areas": kind, "index": idx_mode, "z": z, "step": 1}))
+        cases.append((gdf, areas2, {"areas": kind2, "index": idx_mode, "z": z, "step": 2}))
+    reqs = [f"clip areas={area_rows(a)} traces={lines([xy(g) for g in gdf.geometry.values])}" for gdf, a, _ in cases]
+    resps = ctx.driver.parallel(reqs)
+    for (gdf, areas, meta), resp in zip(cases, resps):
+        res.evaluations += 1
+        res.distribution["with_z"] = res.distribution.get("with_z", 0) + int(meta["z"])
+        check_case(ctx, gdf, areas, resp, res, "S07-network", meta, route="network")
     return res
 
 
@@ -243,7 +304,7 @@ def s07_generated(ctx):
     return res
 
 
-STREAMS = [s07_crop, s07_generated]
+STREAMS = [s07_crop, s07_network, s07_generated]
 
 
 def _rebuild(case):
@@ -260,7 +321,11 @@ def _rebuild(case):
             pgs.append(Polygon(fl(rings[0]), [fl(r) for r in rings[1:]]))
         areas.append(pgs[0] if len(pgs) == 1 else MultiPolygon(pgs))
     m = len(geoms)
-    gdf = gpd.GeoDataFrame({"uid": case.get("uids", [f"u{i}" for i in range(m)]), "val": [i * 1.5 for i in range(m)]}, geometry=geoms)
+    mode = (case.get("meta") or {}).get("index")
+    index = index_for(mode, m) if mode in ("default", "ints", "strings", "nonmono", "dup", "shuffled") else list(range(m))
+    gdf = gpd.GeoDataFrame({"uid": case.get("uids", [f"u{i}" for i in range(m)]), "val": [i * 1.5 for i in range(m)]}, geometry=geoms, index=index)
+    if case.get("z"):
+        gdf = add_z(gdf)
     return gdf, areas
 
 
@@ -270,9 +335,9 @@ def replay(ctx, stream, case):
         return r.disagreements[0] if r.disagreements else None
     import_fractopo()
     gdf, areas = _rebuild(case)
-    req = f"clip areas={area_rows(areas)} traces={lines([list(g.coords) for g in gdf.geometry.values])}"
+    req = f"clip areas={area_rows(areas)} traces={lines([xy(g) for g in gdf.geometry.values])}"
     res = StreamResult("replay")
-    check_case(ctx, gdf, areas, ctx.driver.batch([req])[0], res, stream, case.get("meta", {"areas": "?", "index": "?"}))
+    check_case(ctx, gdf, areas, ctx.driver.batch([req])[0], res, stream, case.get("meta", {"areas": "?", "index": "?"}), route=case.get("route", "function"))
     return res.disagreements[0] if res.disagreements else None
 
 
